@@ -770,9 +770,13 @@ def _serve_socket_threaded(
     # Drive accept on a short timeout and check a shutdown flag instead.
     sock.settimeout(0.5)
 
-    def _close_listener_if_idle() -> None:
+    def _close_listener_if_idle(fired: threading.Timer) -> None:
         nonlocal timer, shutdown_requested
         with state_lock:
+            if timer is not fired:
+                # Stale callback: this timer fired but was cancelled or
+                # replaced before it got the lock.  Its decision is void.
+                return
             timer = None
             if conn_count != 0:
                 return
@@ -782,8 +786,9 @@ def _serve_socket_threaded(
         nonlocal timer
         if timer is not None:
             timer.cancel()
-        timer = threading.Timer(seconds, _close_listener_if_idle)
-        timer.daemon = True
+        armed = threading.Timer(seconds, lambda: _close_listener_if_idle(armed))
+        armed.daemon = True
+        timer = armed
         timer.start()
 
     def _cancel_timer_locked() -> None:
